@@ -61,7 +61,7 @@ def _invariant(pm):
     bad = []
     per_descr = {}
     handles = []
-    for st in pm.context_states.objects:
+    for st in k.ctx_states(pm):
         handles.append(st.Handle)
         if st.ContextAssociation == CA.ASSOCIATED:
             per_descr[st.DescriptorHandle] = per_descr.get(st.DescriptorHandle, 0) + 1
@@ -72,7 +72,7 @@ def _invariant(pm):
     if len(set(handles)) != len(handles):
         bad.append('duplicate-context-state-handle')
     # handles are unique across the whole MDIB
-    dh = [d.Handle for d in pm.descriptions.objects]
+    dh = [d.Handle for d in k.descrs(pm)]
     if any(h in dh for h in handles):
         bad.append('context-state-handle-equals-a-descriptor-handle')
     return bad
@@ -80,7 +80,7 @@ def _invariant(pm):
 
 def _view(pm):
     out = {}
-    for st in pm.context_states.objects:
+    for st in k.ctx_states(pm):
         out[st.Handle] = (st.DescriptorHandle, st.ContextAssociation, st.BindingMdibVersion, st.UnbindingMdibVersion,
                           st.BindingStartTime, st.BindingEndTime, st.StateVersion)
     return out
@@ -145,7 +145,7 @@ def set_location_step(mv: int, a0: int, a1: int, hu0: bool, u0: int, hu1: bool, 
         for lab in _invariant(pm):
             orc.fail(lab)
         _transitions(pm, orc, pre, mv)
-        assoc_loc = [st for st in pm.context_states.objects if st.DescriptorHandle == 'lc0' and st.ContextAssociation == CA.ASSOCIATED]
+        assoc_loc = [st for st in k.ctx_states(pm) if st.DescriptorHandle == 'lc0' and st.ContextAssociation == CA.ASSOCIATED]
         orc.check(len(assoc_loc) == 1 and assoc_loc[0].Handle not in pre, 'new-location-state-not-the-associated-one')
         orc.check(pm.context_states.handle.get_one('os0').ContextAssociation == CA.ASSOCIATED, 'other-context-descriptor-touched')
         if twice:
